@@ -261,16 +261,13 @@ theorem f_c19f_witness (md5 : List Str → Str) :
     acToDict ⟨[], [], [], none, none, [], none, none, none, none, none, .none,
       acGuidOf md5 none Frame.none none none [] none []⟩ false = .error .attributeError := rfl
 
-/- FULL STATEMENT (does NOT hold — F-C08f): `parent_dict_roundtrip` for every chromosome parent.
-   `ParentWF (.chrom seq alphabet id)` demands `id ≠ none` as long as the switch `chromIdRepaired` is `false`;
-   missing: the id-less chromosome parent.  (With the switch flipped the full statement is what is proved.) -/
-
-/-- F-C08f witness: a whole-chromosome parent WITHOUT sequence id (`seq_to_parent(seq)`, the default) is exported
-    with `"sequence_name": None`; the importer then indexes `parent_dict["sequence_name"]` after the null values were
-    stripped: KeyError (so such a collection cannot be unpickled either). -/
-theorem f_c08f_witness :
-    parentFromDict (parentToDict (.chrom "ACGT".toList "NT_STRICT".toList none) (0, 4)) = .error .keyError := by
-  rfl
+/-- F-C08f regression fact (fixed in d13579b): a whole-chromosome parent WITHOUT sequence id (`seq_to_parent(seq)`,
+    the default) is exported with `"sequence_name": None` and imported back as the same parent (the earlier code
+    raised KeyError here, so such a collection could not be unpickled). -/
+theorem f_c08f_regression :
+    parentFromDict (parentToDict (.chrom "ACGT".toList "NT_STRICT".toList none) (0, 4))
+      = .ok (.chrom "ACGT".toList "NT_STRICT".toList none) :=
+  parent_roundtrip _ _ ⟨by decide, Or.inl rfl⟩
 
 /-! ## non-vacuity of the hypotheses -/
 
@@ -306,6 +303,7 @@ example : VcWF exVc := exVc_wf
 example : AcWF (fun _ => []) exAc ∧ exAc.bounds = some (10, 14) ∧ exAc.genes ≠ [] := ⟨exAc_wf, rfl, by decide⟩
 
 example : ParentWF (.chrom "ACGT".toList "NT_STRICT".toList (some "chr1".toList)) := ⟨by decide, Or.inr (by decide)⟩
+example : ParentWF (.chrom "ACGT".toList "NT_STRICT".toList none) := ⟨by decide, Or.inl rfl⟩
 example : ParentWF (.chunk "ACGT".toList "NT_STRICT".toList "chr1".toList 10 14 .plus) := by
   show "ACGT".toList ≠ []; decide
 example : ParentWF (.chunk "ACGT".toList "NT_STRICT".toList "chr1".toList 10 14 .minus) := by
